@@ -2,6 +2,7 @@ package wire
 
 import (
 	"context"
+	"net"
 
 	"github.com/lib/pq/oid"
 )
@@ -245,5 +246,48 @@ func VerifH04f() {
 	}
 	if npf > nv {
 		vReach("more-parameter-formats-than-values")
+	}
+}
+
+// ---------------------------------------------------------------------------
+// H04s — a hostile connection does not disturb the next one (C04): Serve on
+// a listener that hands out a first connection sending B arbitrary bytes and
+// then a second, well-behaved connection. Whatever the first one sends (and
+// however its handling ends), nothing escapes its goroutine, Serve keeps
+// accepting, and the second connection is served in full.
+// ---------------------------------------------------------------------------
+func VerifH04s() {
+	B := vParam("B", 8)
+	hostile := nondetBytes(vChoose(B + 1))
+	if len(hostile) >= 9 {
+		// (a complete Parse after a startup is H04b's business; see H04a for the cut)
+		vAssume(hostile[8] != 'P')
+	}
+	w := &vWorld{parseMenu: -2, execMenu: 1}
+	srv, err := NewServer(w.parse, MessageBufferSize(64))
+	vAssert("newserver-ok", err == nil)
+	good := vCat(vStartup(vKV([]byte("user"), []byte("u"))), vMsgBytes('Q', vCStr([]byte("q"))), vMsgBytes('X', nil))
+	c1, c2 := vNewConn(hostile), vNewConn(good)
+	c2.id = 1
+	if !vSymbolic() {
+		c1.doneCh, c2.doneCh = make(chan struct{}), make(chan struct{})
+	}
+	vFootBegin() // (goroutines started by Serve are executed at the go statement)
+	vOrigin("accept-loop")
+	serr := srv.Serve(&vListener2{conns: []net.Conn{c1, c2}})
+	vOrigin("")
+	c1.vAwaitClosed()
+	c2.vAwaitClosed()
+	vAssert("serve-keeps-accepting-until-the-listener-closes", serr == nil)
+	vAssert("hostile-connection-closed", c1.closed >= 1)
+	if len(c1.out) > 0 && c1.out[0] == 'N' {
+		vAssert("hostile-output-wellformed", vWireOK(c1.out[1:]))
+	} else {
+		vAssert("hostile-output-wellformed", vWireOK(c1.out))
+	}
+	out := vTypes(c2.out)
+	vAssert("second-connection-served-in-full", vWireOK(c2.out) && vCount(out, 'C') == 1 && vCount(out, 'Z') == 2 && c2.closed >= 1)
+	if len(hostile) >= 8 {
+		vReach("hostile-startup-sized")
 	}
 }
